@@ -469,6 +469,120 @@ fn run_in(case: &C06Case, exec: &mut Exec) -> Result<CaseInfo, Fail> {
     }
     checks += 1;
 
+    // ---- scripts running for B: `.cat` / `.head` without --context ------------------------------
+    let only_a = must("only-a", exec.append(&spec("only-in-a", a, None), Some(b"x")))?;
+    must("serve_nu", exec.serve_nu(true, false, true))?;
+    let report = format!(
+        r#"let own = (.head {t})
+      let foreign = (.head "only-in-a")
+      let named = (.head "only-in-a" --context "{actx}")
+      {{
+        cat: (.cat | each {{|f| $f.id}}),
+        cat_after: (.cat --last-id "{last}" | each {{|f| $f.id}}),
+        head: (if $own == null {{ "none" }} else {{ $own.id }}),
+        foreign: (if $foreign == null {{ "none" }} else {{ $foreign.id }}),
+        named: (if $named == null {{ "none" }} else {{ $named.id }})
+      }}"#,
+        t = crate::nu::nu_str(t),
+        actx = id_str(a),
+        last = in_a.first().map(|w| w.id.clone()).unwrap_or(id_str(1)),
+    );
+    let hscript = format!("{{run: {{|frame|\n      if $frame.topic != \"look\" {{ return }}\n      {report}\n    }}}}");
+    let cscript = format!("{{run: {{|frame|\n      {report}\n    }}}}");
+    let hreg = must("register spy", exec.append(&spec("spy.register", b, None), Some(hscript.as_bytes())))?;
+    must("define spy command", exec.append(&spec("spyc.define", b, None), Some(cscript.as_bytes())))?;
+    // wait until the handler is up, then make both look
+    let deadline = Instant::now() + Duration::from_secs(20);
+    loop {
+        let fr = must("read_sync", exec.read_sync(None, None, Some(b)))?;
+        if fr.iter().any(|w| w.topic == "spy.registered" && w.meta_str("handler_id").as_deref() == Some(&hreg.id)) {
+            break;
+        }
+        if let Some(u) = fr.iter().find(|w| w.topic == "spy.unregistered") {
+            return Err(Fail::new(Class::Field, format!("the spy handler was refused: {:?}\n{hscript}", u.meta)));
+        }
+        if Instant::now() > deadline {
+            return Err(Fail::new(Class::Follow, "the spy handler did not register within 20 s".to_string()));
+        }
+        std::thread::sleep(Duration::from_millis(2));
+    }
+    let look = must("look", exec.append(&spec("look", b, None), None))?;
+    let mut reports: Vec<(String, serde_json::Value)> = Vec::new();
+    let mut call_ids: Vec<String> = Vec::new();
+    let deadline = Instant::now() + Duration::from_secs(20);
+    loop {
+        let fr = must("read_sync", exec.read_sync(None, None, Some(b)))?;
+        // the commands loop ignores calls it finds in its history: call until one is answered
+        if !fr.iter().any(|w| w.topic == "spyc.recv" || w.topic == "spyc.error") {
+            if call_ids.len() < 400 {
+                call_ids.push(must("call", exec.append(&spec("spyc.call", b, None), None))?.id);
+            }
+        }
+        reports.clear();
+        for w in &fr {
+            let is_h = w.topic == "spy.out" && w.meta_str("frame_id").as_deref() == Some(&look.id);
+            let is_c = w.topic == "spyc.recv";
+            if is_h || is_c {
+                let c = exec
+                    .cas_read(w.hash.as_ref().unwrap(), false)
+                    .map_err(|e| Fail::new(Class::Cas, format!("report content: {e}")))?;
+                let v: serde_json::Value =
+                    serde_json::from_slice(&c).map_err(|e| Fail::new(Class::Field, format!("report is not JSON: {e}")))?;
+                reports.push((if is_h { "handler".to_string() } else { "command".to_string() }, v));
+            }
+        }
+        if let Some(e) = fr.iter().find(|w| w.topic == "spy.unregistered" || w.topic == "spyc.error") {
+            return Err(Fail::new(Class::Field, format!("the spy script failed: {:?}\n{hscript}", e.meta)));
+        }
+        let have_h = reports.iter().any(|r| r.0 == "handler");
+        let have_c = reports.iter().any(|r| r.0 == "command");
+        if have_h && have_c {
+            break;
+        }
+        if Instant::now() > deadline {
+            return Err(Fail::new(Class::Follow, format!("the spy handler/command did not report within 20 s (handler: {have_h}, command: {have_c})")));
+        }
+        std::thread::sleep(Duration::from_millis(3));
+    }
+    let b_stream = must("read_sync", exec.read_sync(None, None, Some(b)))?;
+    let b_ids: std::collections::BTreeSet<String> = b_stream.iter().map(|w| w.id.clone()).collect();
+    for (who, v) in &reports {
+        checks += 1;
+        for key in ["cat", "cat_after"] {
+            for id in v[key].as_array().cloned().unwrap_or_default() {
+                let id = id.as_str().unwrap_or("").to_string();
+                if !b_ids.contains(&id) {
+                    return Err(iso(format!(
+                        "`.{key}` inside a {who} script running for context {} returned frame {id}, which is not a frame of that context",
+                        id_str(b),
+                    )));
+                }
+            }
+        }
+        if v["head"].as_str() != Some(&sentinel.id) {
+            return Err(iso(format!(
+                "`.head {t:?}` inside a {who} script running for context {} returned {}, the newest frame of that topic in that context is {}",
+                id_str(b),
+                v["head"],
+                sentinel.id
+            )));
+        }
+        if v["foreign"].as_str() != Some("none") {
+            return Err(iso(format!(
+                "`.head only-in-a` inside a {who} script running for context {} returned {} — that topic only exists in context {}",
+                id_str(b),
+                v["foreign"],
+                id_str(a)
+            )));
+        }
+        if v["named"].as_str() != Some(&only_a.id) {
+            return Err(iso(format!(
+                "`.head only-in-a --context A` inside a {who} script returned {}, expected {} (a script may name another context explicitly)",
+                v["named"], only_a.id
+            )));
+        }
+    }
+
     let mut labels = vec![];
     for (on, name) in [
         (case.a == 0 || case.b == 0, "zero-context-involved"),
